@@ -16,6 +16,7 @@ import Goat.Classify
 import Goat.Chain
 import Goat.Stats
 import Goat.ClientStream
+import Goat.Drv.MuxReplay
 open Goat Goat.Drv
 
 def showOptBytes : Option Bytes → String
@@ -209,6 +210,17 @@ def cliSeq (es : List RespEnv) : String :=
     | e :: _ => if e.metaBad then "err" else "ok"
   s!"A={a}|B={msgs};{term}|H={h}"
 
+def parseMuxObs (s : String) : Option MuxReplay.Obs :=
+  match s.splitOn ":" with
+  | ["alloc", id, k] => id.toNat?.map (fun id => .alloc id (if k == "unary" then .unary else .stream))
+  | ["register", id, r] => id.toNat?.map (fun id => .register id (r == "ok"))
+  | ["lookup", id, r] => id.toNat?.map (fun id => .lookup id (r == "found"))
+  | ["deliver", id] => id.toNat?.map .deliver
+  | ["drop", id] => id.toNat?.map .drop
+  | ["unregister", id, r] => id.toNat?.map (fun id => .unregister id (r == "present"))
+  | ["fail"] => some .fail
+  | _ => none
+
 def evalOp (op input : String) : Option String :=
   match op with
   | "b64enc" => (parseHex input).map (fun b => hexOf (Base64.encode b))
@@ -237,6 +249,9 @@ def evalOp (op input : String) : Option String :=
         let lo ← lo.toInt?; let hi ← hi.toInt?
         some (if lo ≤ (d : Int) ∧ (d : Int) ≤ hi then "in" else s!"out({d})")
       | some d, _ => some s!"out({d})"
+    | _ => none
+  | "muxtrace" => match input.splitOn "|" with
+    | [n, evs] => (parseList parseMuxObs ";" evs).map (fun l => MuxReplay.verdict l n.toNat?)
     | _ => none
   | "cliseq" => match input.splitOn "|" with
     | [_, seq] => (parseList parseRespEnv ";" seq).map cliSeq
